@@ -63,7 +63,8 @@ func constructs() []construct {
 		}},
 		{"GenerateParallel", func(ctx context.Context, src func() *fun.Iterator[int], w int) []*fun.Iterator[int] {
 			s := src()
-			return one(fun.Producer[int](s.ReadOne).GenerateParallel(nw(w)))
+			// the generator is called by w workers at once: it has to be safe for that
+			return one(fun.Producer[int](s.ReadOne).Lock().GenerateParallel(nw(w)))
 		}},
 		{"MergeIterators", func(ctx context.Context, src func() *fun.Iterator[int], w int) []*fun.Iterator[int] {
 			its := make([]*fun.Iterator[int], w)
@@ -251,10 +252,10 @@ func scenario(c construct, n, k, w int, stop string, blocking bool) vs.Scenario 
 var _ = atomic.Int64{}
 
 func build(tier string) ([]runner.Instance, time.Duration) {
-	bound, budget := 1, 80*time.Second
+	bound, budget := 2, 80*time.Second
 	maxN, maxW := 2, 2
 	if tier == "thorough" {
-		bound, budget, maxN = 2, 14*time.Minute, 3
+		bound, budget, maxN = 3, 14*time.Minute, 3
 	}
 	var out []runner.Instance
 	add := func(c construct, n, k, w int, stop string, blocking bool, b int) {
